@@ -1,5 +1,5 @@
 From Coq Require Import List NArith Bool Arith Lia.
-From LTV Require Import Params_gen.
+From LTV.C17 Require Import ParamsGen.
 From LTV.C17 Require Import Model.
 Import ListNotations.
 
